@@ -205,7 +205,7 @@ def h_tee(L: int, o0: int, o1: int, o2: int, o3: int, o4: int, o5: int, o6: int,
 
 
 GRID = {
-    "h_retain": lambda: [(L, n) for L in (0, 1, 2, 5, 9, 12, 30, 60) for n in (1, 2, 3)],
+    "h_retain": lambda: [(L, n) for L in (0, 1, 2, 5, 9, 12, 30, 60, 200) for n in (1, 2, 3)],
     "h_tee": lambda: [(8, a, b, c, d, a, b, 0, 0, P("closeat", 8)) for a in (0, 1) for b in (0, 1) for c in (0, 1) for d in (0, 1)],
 }
 
@@ -223,9 +223,9 @@ def jobs(tier):
 
 LEVEL = "other"
 BOUNDS = {
-    "quick": "stream length L = 0..12 (symbolic), window n = 1..3 (batched size, islice step, nlargest/nsmallest n); live source items counted (weak references after gc.collect()) at every pull of every source, i.e. after every consumer step; 24 streaming tools and 8 single-pass aggregations; tee: 2 children over 8 items, every progress pattern of 6 symbolic + 2 fixed steps, child 1 closed early before step 0..6 or never; the concrete pre-flight additionally runs L=30 and L=60",
+    "quick": "stream length L = 0..12 (symbolic), window n = 1..3 (batched size, islice step, nlargest/nsmallest n); live source items counted (weak references after gc.collect()) at every pull of every source, i.e. after every consumer step; 24 streaming tools and 8 single-pass aggregations; tee: 2 children over 8 items, every progress pattern of 6 symbolic + 2 fixed steps, child 1 closed early before step 0..6 or never; the concrete pre-flight additionally runs L=30, 60 and 200",
     "thorough": "L = 0..24",
 }
-OUTSIDE = ["streams of 50..2000 items: the same constant bound is claimed only up to L (symbolically) and L=60 (pre-flight)", "cycle, lagging tee children, sorted and the collection builders accumulate by design"]
+OUTSIDE = ["streams of 50..2000 items: the same constant bound is claimed only up to L (symbolically) and L=200 (pre-flight)", "cycle, lagging tee children, sorted and the collection builders accumulate by design"]
 NONTRIVIAL_RULE = ">=6 source items produced on the path"
 ASSUMPTIONS = ["object lifetimes are CPython reference counting plus gc.collect(); CrossHair's weakref model collects before dereferencing"]
